@@ -18,8 +18,8 @@ CLAIMED = {
                 "no gaps/repeats) is decided on real channels by the release_rule predicate of the C02/C03 checks and by "
                 "C02_revoke_advances_tail / C02_tail_height_monotone on the channel model.",
         "note": "Trusted: Coq kernel, harness, python driver, Gallina SHA-256 (tested vs crypto/sha256 each run). The "
-                "2^48-th insert (Go array index 48) is outside the guard. No T1 translator for the bit helpers (hand-"
-                "written in Go shape, proved arithmetically, tied by the differential run).",
+                "2^48-th insert (Go array index 48) is outside the guard."
+                "",
         "technique": "Coq proof (induction/invariant over insert sequences, arithmetic characterisation of derivability) "
                      "+ byte-exact differential correspondence + trace predicates",
     },
@@ -120,7 +120,7 @@ CLAIMED["C09"] = {
             "neighbourhoods, plus a text-derived unbounded-integer predicate on every in-domain answer.",
     "note": "Trusted: Coq kernel (coqchk in thorough), extraction ExtrOcamlBasic (cross-checked vs vm_compute each "
             "run), Go harness, python predicate. Environment answers (bandwidth, traffic shaper, channel-update "
-            "availability) are model inputs. ExpectedFee/CalcFee are hand-transcribed (no T1 translator).",
+            "availability) are model inputs.",
     "technique": "Coq proof (machine arithmetic = unbounded spec on a stated domain; exhaustive case analysis) + "
                  "differential correspondence (extracted OCaml + kernel slice) + implementation-side predicate",
 }
@@ -395,7 +395,7 @@ CLAIMED["C17"] = {
             "(exercised on every channel case; one Section hypothesis verify-sign). Negotiation machine abstracts the "
             "channel as 'proposal succeeds iff fee <= opener balance + credit'. RBF-coop: option set modelled and driven "
             "on the wallet calls; protofsm state machine, aux/extra outputs, custom sort, cached-ClosingSigned path not "
-            "modelled. No T1 translator (arith functions tied by T2 grids).",
+            "modelled.",
     "technique": "Coq proof (symmetry/algebra, potential-function termination measure, cycle invariant for the "
                  "refutation) + differential correspondence on real channels and ChanClosers + implementation-side predicates",
 }
@@ -488,3 +488,23 @@ CLAIMED["C05"] = {
 }
 
 NOT_CLAIMED = {}
+
+
+# T1 arithmetic: functions/constants regenerated from the Go source on every run (translate/gen_arith*.go ->
+# Gen/GenArith.v, Gen/GenConsts.v) and proved equal to the model functions in <Subsys>/GenBridge.v
+_T1 = {
+    "C01": "FeeForWeight, HtlcTimeoutFee, HtlcSuccessFee, CommitWeight, HtlcIsDust, ToSatoshis",
+    "C02": "FeeForWeight, HtlcTimeoutFee, HtlcSuccessFee, CommitWeight, HtlcIsDust, ToSatoshis",
+    "C03": "FeeForWeight, HtlcTimeoutFee, HtlcSuccessFee, CommitWeight, HtlcIsDust, ToSatoshis",
+    "C06": "getBit, getPrefix, countTrailingZeros, maxHeight",
+    "C09": "ExpectedFee, InboundFee.CalcFee, maxFeeRate, feeRateParts",
+    "C10": "MaxMsgBody, MaxRecordSize",
+    "C11": "keyRotationInterval, macSize, lengthHeaderSize, encHeaderSize",
+    "C14": "ReorgSafetyLimit (>= 1)",
+    "C17": "CoopCloseBalance, feeInAcceptableRange, ratchetFee, calcCompromiseFee, ToSatoshis, AnchorSize",
+    "C18": "calcCurrentConfTarget, FeeForWeight, FeePerKwFloor",
+}
+for _pid, _fns in _T1.items():
+    CLAIMED[_pid]["technique"] += (" + T1: %s regenerated from the Go source on every run with explicit fixed-width "
+                                   "wraps and proved equal to the model's functions (GenBridge.v), so a source edit "
+                                   "breaks the proof stage" % _fns)
